@@ -59,6 +59,16 @@ func VX_C14_Races(args []int) {
 		run(func() { s.Close() })
 		run(func() { _ = s.Health(); p.CountSession() })
 		n = 3
+	case 7: // two concurrent id changes vs lookups
+		run(func() { s.SetID("X") })
+		run(func() { s.SetID("Y") })
+		run(func() { _ = s.ID(); p.GetSession("X"); p.GetSession("Y") })
+		n = 3
+	case 8: // re-asserting the current id vs changing it
+		s.SetID("same")
+		run(func() { s.SetID("same") })
+		run(func() { s.SetID("other") })
+		n = 2
 	case 6: // call vs remote close
 		run(func() { s.AsyncCall("/a", []byte("1"), new([]byte), make(chan CallCmd, 1)) })
 		conn.end()
@@ -78,14 +88,18 @@ func init() { vxRegister("VX_C14_DisconnectWhileLaunching", VX_C14_DisconnectWhi
 // a call (inside a pre-write hook) while the peer goes away and the session's
 // reader handles the disconnect. No unsynchronised conflicting accesses; the
 // call completes exactly once; the disconnect handling finishes.
-// args: kind(0 AsyncCall with a roomy channel, 1 channel of capacity 1)
+// args: kind(0 AsyncCall with a roomy channel, 1 channel of capacity 1)[, where(0 in the pre-write hook, 1 in the post-write hook)]
 func VX_C14_DisconnectWhileLaunching(args []int) {
 	var log []string
 	pl := newVxPlugin("h", &log)
 	rel := make(chan struct{})
 	entered := make(chan struct{}, 1)
+	hookStage := "PreWriteCall"
+	if len(args) > 1 && args[1] == 1 {
+		hookStage = "PostWriteCall" // the request has been written; the launch has not returned yet
+	}
 	pl.onHook = func(stage string) {
-		if stage == "PreWriteCall" {
+		if stage == hookStage {
 			entered <- struct{}{}
 			<-rel
 		}
